@@ -115,3 +115,26 @@ pub fn shape_sig<Fld: ark_ff::PrimeField>(curve: &str, m: &Model<Fld>, closures:
         m.chals.len()
     )
 }
+
+/// `batch_verify` over (program, commitments, proof) instances with a recorded batch RNG.
+/// Returns the verdict, the bytes drawn from the batch RNG and the number of RNG calls.
+pub fn batch<G: AffineRepr>(
+    env: &Env<G>,
+    items: &[(&Program, &[G], &R1CSProof<G>)],
+    bp: &BulletproofGens<G>,
+    rng_seed: u64,
+) -> (Result<(), R1CSError>, Vec<u8>, usize) {
+    use crate::interp::cur::{build_verifier, new_transcript};
+    let mut rng = crate::rngs::RecordingRng::new(ChaChaRng::seed_from_u64(rng_seed));
+    let mut trs: Vec<merlin::Transcript> = items.iter().map(|(p, _, _)| new_transcript(p)).collect();
+    let mut insts = vec![];
+    for ((p, vs, proof), tr) in items.iter().zip(trs.iter_mut()) {
+        let (v, _st) = build_verifier::<G>(p, vs, tr);
+        match v {
+            Ok(v) => insts.push((v, *proof)),
+            Err(e) => return (Err(e), rng.log, rng.calls),
+        }
+    }
+    let r = ark_bulletproofs::r1cs::batch_verify(&mut rng, insts, &env.pc, bp);
+    (r, rng.log, rng.calls)
+}
